@@ -57,24 +57,45 @@ func newAuthz(a acl.Authorizer, desc string) *authz {
 
 var rulePrefixes = []string{"", "w", "web", "We", "d", "n", "a"}
 
-func genPolicySource(r *hx.RNG) string {
+// genPolicySource: per kind, about half of the universe names get an exact rule that flips the
+// default (so that responses are typically filtered in part), plus a few prefix rules and rules of
+// the default's own polarity that exercise precedence.
+func genPolicySource(r *hx.RNG, defaultAllow bool) string {
 	var b strings.Builder
-	n := 1 + r.Intn(6)
-	for i := 0; i < n; i++ {
-		kind := hx.Pick(r, []string{"node", "service", "service", "session", "key", "query", "node", "service"})
-		pol := hx.Pick(r, []string{"read", "read", "write", "deny"})
-		if r.Chance(45) {
-			fmt.Fprintf(&b, "%s_prefix %q {\n  policy = %q\n", kind, hx.Pick(r, rulePrefixes), pol)
-		} else {
-			fmt.Fprintf(&b, "%s %q {\n  policy = %q\n", kind, names[1+r.Intn(len(names)-1)], pol)
+	flip := func() string {
+		switch {
+		case r.Chance(12): // same polarity as the default
+			if defaultAllow {
+				return hx.Pick(r, []string{"read", "write"})
+			}
+			return "deny"
+		case defaultAllow:
+			return "deny"
 		}
-		if kind == "service" && r.Chance(40) {
+		return hx.Pick(r, []string{"read", "read", "write"})
+	}
+	rule := func(kind, head, name string) {
+		fmt.Fprintf(&b, "%s %q {\n  policy = %q\n", head, name, flip())
+		if kind == "service" && r.Chance(35) {
 			fmt.Fprintf(&b, "  intentions = %q\n", hx.Pick(r, []string{"read", "write", "deny"}))
 		}
 		b.WriteString("}\n")
 	}
-	if r.Chance(35) {
-		fmt.Fprintf(&b, "acl = %q\n", hx.Pick(r, []string{"read", "write", "deny"}))
+	for _, kind := range []string{"node", "service", "session", "key", "query"} {
+		if r.Chance(12) {
+			continue // kind left to the default
+		}
+		for _, n := range names[1:] {
+			if r.Chance(42) {
+				rule(kind, kind, n)
+			}
+		}
+		if r.Chance(30) {
+			rule(kind, kind+"_prefix", hx.Pick(r, rulePrefixes))
+		}
+	}
+	if r.Chance(60) {
+		fmt.Fprintf(&b, "acl = %q\n", hx.Pick(r, []string{"read", "read", "write", "write", "deny"}))
 	}
 	return b.String()
 }
@@ -82,22 +103,22 @@ func genPolicySource(r *hx.RNG) string {
 // genAuthz builds a real authorizer: static ones, or a policy authorizer compiled from generated HCL.
 func genAuthz(r *hx.RNG) *authz {
 	switch x := r.Intn(100); {
-	case x < 6:
+	case x < 4:
 		return newAuthz(acl.ManageAll(), "manage-all")
-	case x < 10:
+	case x < 7:
 		return newAuthz(acl.AllowAll(), "allow-all")
-	case x < 14:
+	case x < 10:
 		return newAuthz(acl.DenyAll(), "deny-all")
 	}
 	for {
-		src := genPolicySource(r)
+		def, dn, da := acl.DenyAll(), "default-deny", false
+		if r.Chance(45) {
+			def, dn, da = acl.AllowAll(), "default-allow", true
+		}
+		src := genPolicySource(r, da)
 		p, err := acl.NewPolicyFromSource(src, nil, nil)
 		if err != nil {
 			continue
-		}
-		def, dn := acl.DenyAll(), "default-deny"
-		if r.Chance(30) {
-			def, dn = acl.AllowAll(), "default-allow"
 		}
 		a, err := acl.NewPolicyAuthorizerWithDefaults(def, []*acl.Policy{p}, nil)
 		if err != nil {
